@@ -1,6 +1,6 @@
 (* C17 — concurrent API calls behave like sequential ones.
    Model/Interleave.v: each call is a program of Write/Read/Local/Acq/Rel steps over process-global state; any number of threads,
-   every schedule.  The general theorem is an induction over the schedule with a 7-part invariant (Proofs/InterleaveP.v).
+   every schedule.  The general theorem is an induction over the schedule with a 8-part invariant (Proofs/InterleaveP.v).
    The skeletons are the recorded global-access traces of the engine's API calls (yield tags of vtlengine._verif), checked
    against the recognisers of the model on every run by harness/props/c17.py. *)
 From Coq Require Import List Arith ZArith Bool.
@@ -29,7 +29,7 @@ Proof. exact confined_serializable_W. Qed.
 
 (* before completion too: at every point of every interleaving a confined call has seen what it sees alone after the same steps *)
 Theorem C17_confined_prefix :
-  forall disc W progs st0, (forall i, Forall (write_ok W) (progs i)) -> (forall i, confined disc W i (progs i) = true) ->
+  forall disc W progs st0, (forall i, Forall (write_ok W) (progs i)) -> (forall i, confined_res disc W i (progs i) = true) ->
   forall sched i, let c := run sched (init st0 progs) in
   wobs W (t_obs (c_thr c i)) = wobs W (v_obs (view_of st0 (t_done (c_thr c i)))) /\ t_done (c_thr c i) ++ t_todo (c_thr c i) = progs i.
 Proof. intros disc W progs st0 Hw H. exact (confined_prefix disc W progs st0 Hw H). Qed.
@@ -42,18 +42,20 @@ Theorem C17_solo_is_alone :
   t_obs (c_thr (run sched (init st0 progs)) i) = solo_result zero_store p.
 Proof. exact solo_is_alone. Qed.
 
-(* ---- FAITHFUL (current code: the viral-propagation registry and Exceptions.dataset_output are ContextVars).  For ANY number of
-        concurrent calls whose access traces never read their registry / output-dataset cell before writing it (every recorded
-        trace: checked on each run), of ANY length, under EVERY interleaving: each completed call read, at every registry access
-        and at every error construction, exactly what it reads alone.  (W_reg = the parse state and the per-thread cells; reads
-        of the remaining process-wide globals — VirtualCounter, TimePeriodConfig — are not constrained.) *)
+(* ---- FAITHFUL (current code: the viral-propagation registry and Exceptions.dataset_output are ContextVars, the VirtualCounter
+        counters a threading.local).  For ANY number of concurrent calls whose access traces never read their registry /
+        output-dataset cell before writing it (every recorded trace: checked on each run), of ANY length, under EVERY
+        interleaving: each completed call read — at every registry access, every error construction and every counter access —
+        exactly what it reads alone from the same initial state.  (W_reg = the parse state and all per-thread cells; the only
+        global left process-wide, TimePeriodConfig, is written but never read by the four API calls: checked on each run.
+        A counter may be read before the call resets it: it then holds what the SAME thread's earlier calls left — st0.) *)
 Theorem C17_cells_serializable_impl :
   forall (trs : tid -> list tag) (toks : tid -> val), (forall i, cells_wf false false (trs i) = true) ->
   forall st0 sched i, let progs := fun j => prog_of_trace (gmap_impl j) (toks j) (trs j) in
   t_todo (c_thr (run sched (init st0 progs)) i) = [] ->
-  wobs W_reg (t_obs (c_thr (run sched (init st0 progs)) i)) = wobs W_reg (solo_result zero_store (progs i)).
+  wobs W_reg (t_obs (c_thr (run sched (init st0 progs)) i)) = wobs W_reg (solo_result st0 (progs i)).
 Proof.
-  intros trs toks Hwf st0 sched i progs. apply (confined_serializable_W disc_impl W_reg progs).
+  intros trs toks Hwf st0 sched i progs. apply (confined_serializable_st disc_impl W_reg progs st0).
   - intros j. apply impl_trace_writes.
   - intros j. apply impl_trace_confined. apply Hwf.
 Qed.
@@ -102,7 +104,8 @@ Definition pA : prog := prog_of_trace (gmap_impl 0) 1%Z (run_tags 1 1).
 Definition pB : prog := prog_of_trace (gmap_impl 1) 2%Z (run_tags 1 1).
 Example C17_no_cell_witness_impl :
   race_schedule (gmap_impl 0 GRegistry) 0 1 pA pB = None /\ race_schedule GRegistry 0 1 pA pB = None /\
-  race_schedule (gmap_impl 0 GDsOut) 0 1 pA pB = None /\ race_schedule GDsOut 0 1 pA pB = None.
+  race_schedule (gmap_impl 0 GDsOut) 0 1 pA pB = None /\ race_schedule GDsOut 0 1 pA pB = None /\
+  race_schedule (gmap_impl 0 GVcDs) 0 1 pA pB = None /\ race_schedule GVcDs 0 1 pA pB = None.
 Proof. vm_compute. repeat split; reflexivity. Qed.
 
 (* ---- REGRESSION WITNESS, behaviour BEFORE the fix (one process-wide registry): an interleaving in which both calls complete
@@ -138,37 +141,34 @@ Theorem C17_dataset_output_race_before_fix_refuted :
                 In (GDsOut, 2%Z) (obs_of sched (two pSemErr_before_fix pB_before_fix) 0).
 Proof. apply race_found_sound. vm_compute. reflexivity. Qed.
 
-Definition pSemErr : prog := prog_of_trace (gmap_impl 0) 1%Z [TParse; TRegSet; TDsOutSet; TVcDs; TRaise; TDsOutClear].
-
-(* ---- FAITHFUL, still refuted: VirtualCounter is reset only AFTER each statement, so a call's first intermediate name depends
-        on what another call left in the counter: B advances the counter, A then runs from start to end and reads 1 instead of 0 *)
+(* ---- REGRESSION WITNESS, behaviour BEFORE the fix (process-wide VirtualCounter, reset only AFTER each statement): B advances
+        the counter, A then runs from start to end and its first intermediate name uses 1 instead of 0 *)
 Definition residue_schedule (g : gvar) (pa pb : prog) : option (list tid) :=
   match first_write g 0 pb with
   | Some j => Some (repeat 1 (S j) ++ repeat 0 (length pa) ++ repeat 1 (length pb - S j))
   | None => None
   end.
-Theorem C17_virtual_counter_race_refuted :
-  exists sched, finished sched (two pSemErr pB) 0 = true /\ finished sched (two pSemErr pB) 1 = true /\
-                In (GVcDs, 0%Z) (solo_result zero_store pSemErr) /\ In (GVcDs, 1%Z) (obs_of sched (two pSemErr pB) 0) /\
-                ~ In (GVcDs, 0%Z) (obs_of sched (two pSemErr pB) 0).
+Theorem C17_virtual_counter_race_before_fix_refuted :
+  exists sched, finished sched (two pSemErr_before_fix pB_before_fix) 0 = true /\ finished sched (two pSemErr_before_fix pB_before_fix) 1 = true /\
+                In (GVcDs, 0%Z) (solo_result zero_store pSemErr_before_fix) /\ In (GVcDs, 1%Z) (obs_of sched (two pSemErr_before_fix pB_before_fix) 0) /\
+                ~ In (GVcDs, 0%Z) (obs_of sched (two pSemErr_before_fix pB_before_fix) 0).
 Proof.
-  destruct (residue_schedule GVcDs pSemErr pB) as [s|] eqn:E; [|vm_compute in E; discriminate].
+  destruct (residue_schedule GVcDs pSemErr_before_fix pB_before_fix) as [s|] eqn:E; [|vm_compute in E; discriminate].
   exists s. vm_compute in E. inversion E; subst s. vm_compute.
   repeat split; auto 10.
   intros H. repeat (destruct H as [H|H]; [discriminate|]). exact H.
 Qed.
 
-(* hence NO protection discipline (no assignment of locks / owners to the globals) makes the faithful skeletons confined
-   with respect to ALL globals *)
-Theorem C17_run_skeleton_not_confinable :
-  forall disc, ~ (confined disc W_all 0 pSemErr = true /\ confined disc W_all 1 pB = true).
+(* BEFORE the fixes no protection discipline (no assignment of locks / owners to the globals) made the skeletons confined *)
+Theorem C17_run_skeleton_not_confinable_before_fix :
+  forall disc, ~ (confined disc W_all 0 pSemErr_before_fix = true /\ confined disc W_all 1 pB_before_fix = true).
 Proof.
   intros disc [Ha Hb].
-  destruct C17_virtual_counter_race_refuted as [sched [F0 [_ [Hsolo [_ Hno]]]]].
-  apply Hno. unfold obs_of.
-  rewrite (confined_serializable disc (two pSemErr pB)); [exact Hsolo | |].
+  destruct C17_dataset_output_race_before_fix_refuted as [sched [F0 [_ [Hne _]]]].
+  apply Hne. unfold obs_of.
+  apply (confined_serializable disc (two pSemErr_before_fix pB_before_fix)).
   - intros i. destruct i as [|[|i]]; simpl; [exact Ha | exact Hb | reflexivity].
-  - unfold finished in F0. destruct (t_todo (c_thr (run sched (init zero_store (two pSemErr pB))) 0)); [reflexivity | discriminate].
+  - unfold finished in F0. destruct (t_todo (c_thr (run sched (init zero_store (two pSemErr_before_fix pB_before_fix))) 0)); [reflexivity | discriminate].
 Qed.
 
 (* ---- partial, FAITHFUL: the parse-only calls (create_ast, prettify) are serializable under every interleaving, in any number,
@@ -183,7 +183,7 @@ Proof.
   intros j. apply parse_confined.
 Qed.
 
-(* ---- SPEC (the remaining repair: counters and representation per thread too, each call starting from its own
+(* ---- SPEC (every global per thread, each call starting from its own
         fresh registry / reset counters): ANY mix of parse-only calls and run()/semantic_analysis calls of ANY shape, in ANY
         number, is serializable under every interleaving with respect to ALL globals *)
 Definition spec_prog (kind : bool) (i : tid) (tok : val) (n k : nat) : prog :=
@@ -205,7 +205,7 @@ Example C17_nonvacuous :
   let sched := flat_map (fun _ => [0; 1]) (seq 0 40) in
   finished sched progs 0 = true /\ finished sched progs 1 = true /\
   Nat.ltb 2 (length (obs_of sched progs 0)) = true /\ confined disc_spec W_all 0 (progs 0) = true /\
-  confined disc_impl W_all 0 pA = false /\ confined disc_impl W_reg 0 pA = true.
+  confined disc_impl W_all 0 pA = false /\ confined_res disc_impl W_reg 0 pA = true.
 Proof. vm_compute. repeat split. Qed.
 
 Print Assumptions C17_confined_serializable.
@@ -217,7 +217,7 @@ Print Assumptions C17_run_shape_cells_wf.
 Print Assumptions C17_registry_race_before_fix_refuted.
 Print Assumptions C17_registry_race_all_shapes_le3_before_fix.
 Print Assumptions C17_dataset_output_race_before_fix_refuted.
-Print Assumptions C17_virtual_counter_race_refuted.
-Print Assumptions C17_run_skeleton_not_confinable.
+Print Assumptions C17_virtual_counter_race_before_fix_refuted.
+Print Assumptions C17_run_skeleton_not_confinable_before_fix.
 Print Assumptions C17_parse_calls_serializable_partial.
 Print Assumptions C17_spec_calls_serializable.
